@@ -978,6 +978,70 @@ pub fn run_c07(tier: Tier) -> i32 {
             }
         }
     });
+    // ---- (2b'') impostor continuations: the position command ENDS in the reply the engine expected,
+    // but after a different move of ours (a sibling line), or from the same men with other clocks —
+    // "the expected reply was played" is not "the expected position was reached"
+    let t1 = Instant::now();
+    let before_imp = stats.gos.load(Ordering::Relaxed);
+    let imp_jobs: Vec<(usize, usize)> = sm_positions.iter().flat_map(|&pi| d1s.iter().map(move |&d1| (pi, d1))).collect();
+    par_map_fine(&imp_jobs, |&(pi, d1)| {
+        let (base, moves, tag) = &positions[pi];
+        if tag.starts_with("fullmove_") || *tag == "root_occurred_three_times" {
+            return;
+        }
+        let pos_line = position_line(base, moves);
+        let first_go = format!("go depth {}", d1);
+        let first = {
+            let mut s = Session::new(false);
+            s.line(&pos_line);
+            let o = run_go(&mut s, &first_go, Plan::virtual_rate(1_000), &none);
+            s.quit();
+            o
+        };
+        if first.problem.is_some() || first.pv.len() < 3 {
+            return;
+        }
+        let mut root = base.clone();
+        for u in moves {
+            root = root.make(&root.find_legal_uci(u).unwrap());
+        }
+        let (s0, o0) = (first.pv[0].clone(), first.pv[1].clone());
+        // sibling first moves after which the expected reply is still legal
+        let mut siblings: Vec<String> = Vec::new();
+        for a in root.legal() {
+            if a.uci() != s0 {
+                let q = root.make(&a);
+                if q.find_legal_uci(&o0).is_some() && q.make(&q.find_legal_uci(&o0).unwrap()).has_legal_move() {
+                    siblings.push(a.uci());
+                }
+            }
+        }
+        let take = if tier == Tier::Quick { 8 } else { siblings.len() };
+        let step = (siblings.len() / take.max(1)).max(1);
+        for a in siblings.iter().step_by(step).take(take) {
+            let mut moves2 = moves.clone();
+            moves2.push(a.clone());
+            moves2.push(o0.clone());
+            let mut root2 = base.clone();
+            for u in &moves2 {
+                root2 = root2.make(&root2.find_legal_uci(u).unwrap());
+            }
+            let pos_line2 = position_line(base, &moves2);
+            for variant in ["go movetime 0", "go wtime 60000 btime 60000 winc 0 binc 0", "go depth 1", "go depth 2"] {
+                stats.gos.fetch_add(1, Ordering::Relaxed);
+                let mut s = Session::new(false);
+                s.line(&pos_line);
+                let _ = run_go(&mut s, &first_go, Plan::virtual_rate(1_000), &none);
+                s.line(&pos_line2);
+                let spec = GoSpec { line: variant.to_string(), needs_stop: false, searchmoves: vec![] };
+                let out = run_go(&mut s, &spec.line, Plan::virtual_rate(1_000), &none);
+                let (late, _) = s.quit();
+                let late_best = late.iter().filter(|e| matches!(e, Ev::Best(..))).count();
+                c07_judge(&rep, &root2, "impostor_continuation", &pos_line2, &spec, "1us/node", &out, late_best, json!({"prefix": [pos_line, first_go], "the_command_ends_in_the_expected_reply_but_after_another_move": a}));
+            }
+        }
+    });
+    fams.push(json!({"family": "impostor continuations: position ends in the expected reply after a sibling first move; zero-budget and shallow go", "cases": imp_jobs.len(), "gos": stats.gos.load(Ordering::Relaxed) - before_imp, "secs": t1.elapsed().as_secs_f64()}));
     fams.push(json!({"family": "first go after the game followed the engine's own line (1 or 2 plies of its PV): every legal move as searchmoves, shallow and zero budget", "cases": cont_jobs.len(), "gos": stats.gos.load(Ordering::Relaxed) - before_cont, "secs": t0.elapsed().as_secs_f64()}));
     // ---- (2e) whole games on one engine: the position command grows by the engine's own answer,
     // the go command cycles through limits (zero budgets included); every answer is judged
